@@ -3,6 +3,7 @@
 package corerad
 
 import (
+	"errors"
 	"fmt"
 	"sync/atomic"
 	"sync"
@@ -344,8 +345,83 @@ func c17ConcurrentGathers(t *testing.T, out *vfh.Out) {
 	out.Line(fmt.Sprintf("cgs %d %d", goroutines, gathers), fmt.Sprint(atomic.LoadInt64(&bad)))
 }
 
+// c17SlowState: a system.State whose reads for one interface fail and for another block until released.
+type c17SlowState struct {
+	bad, slow string
+	rel       chan struct{}
+	slowReads int64
+}
+
+func (s *c17SlowState) IPv6Autoconf(i string) (bool, error) { return s.read(i) }
+func (s *c17SlowState) IPv6Forwarding(i string) (bool, error) { return s.read(i) }
+func (s *c17SlowState) SetIPv6Autoconf(string, bool) error { return nil }
+func (s *c17SlowState) read(i string) (bool, error) {
+	switch i {
+	case s.bad:
+		return false, errors.New("scripted: state of this interface cannot be read")
+	case s.slow:
+		atomic.AddInt64(&s.slowReads, 1)
+		<-s.rel
+	}
+	return true, nil
+}
+
+// c17FailNextToSlow: a scrape in which one interface's state cannot be read while another interface's
+// read is slow.  The scrape fails (the failing interface comes first); whatever the collector has
+// started for the slow interface must be finished with before the scrape returns — nothing may touch
+// the scrape's sinks afterwards (with the Prometheus collector that is a send on a closed channel:
+// the daemon dies) — and the next scrape, with everything readable again, is complete.
+//
+//	cgx | firstFailed secondOK
+func c17FailNextToSlow(t *testing.T, out *vfh.Out) {
+	out.Pending("c17FailNextToSlow: one interface unreadable, the next one slow; then a normal scrape")
+	doc := "[[interfaces]]\nname = \"eth0\"\nadvertise = true\n[[interfaces.prefix]]\nprefix = \"2001:db8:0:1::/64\"\n" +
+		"[[interfaces]]\nname = \"eth1\"\nadvertise = true\n[[interfaces.prefix]]\nprefix = \"2001:db8:0:2::/64\"\n"
+	cfg, err := config.Parse(strings.NewReader(doc), time.Now())
+	if err != nil {
+		t.Fatalf("cgx: %v", err)
+	}
+	st := &c17SlowState{bad: "eth0", slow: "eth1", rel: make(chan struct{})}
+	reg := prometheus.NewPedanticRegistry()
+	_ = NewMetrics(metricslite.NewPrometheus(reg), "v", time.Time{}, st, cfg.Interfaces)
+	type res struct{ err error }
+	done := make(chan res, 1)
+	go func() {
+		_, err := reg.Gather()
+		done <- res{err}
+	}()
+	firstFailed := false
+	select {
+	case r := <-done:
+		firstFailed = r.err != nil
+	case <-time.After(3 * time.Second):
+		// the scrape waits for the slow interface (it reads the interfaces one after the other, or
+		// it waits for all of them): let it finish
+	}
+	close(st.rel)
+	if !firstFailed {
+		select {
+		case r := <-done:
+			firstFailed = r.err != nil
+		case <-time.After(20 * time.Second):
+		}
+	}
+	time.Sleep(300 * time.Millisecond) // anything still running for the first scrape gets its chance
+	st.bad = ""
+	mfs, err := reg.Gather()
+	n := 0
+	for _, mf := range mfs {
+		if strings.HasPrefix(mf.GetName(), "corerad_") {
+			n += len(mf.GetMetric())
+		}
+	}
+	out.Line("cgx", new(vfh.Toks).B(firstFailed).B(err == nil && n > 0).String())
+	out.Flush()
+}
+
 func verifC17(t *testing.T, r *vfh.Rand, out *vfh.Out) {
 	c17ConcurrentGathers(t, out)
+	c17FailNextToSlow(t, out)
 	docs := vfobs.Docs(r, vfh.N(3, 40))
 	nt := 0
 	for _, d := range docs {
